@@ -59,6 +59,7 @@ def setup(b):
         '_decrypt_snapshot_body': Model('_decrypt_snapshot_body', decrypt_body),
     })
     b.B, b.decode, b.path, b.d = B, decode, path, d
+    b.me = me
 
 
 def sig(p):
@@ -102,6 +103,11 @@ def post(res):
                 sym.lift(e.data['data'], BYTES).z == b.B(b.path.z),
                 sym.lift(e.data['path'], STR).z == b.path.z,
                 Hf(sym.lift(e.data['data'], BYTES).z) == b.d.z))
+        for e in p.st.events:
+            if e.kind in ('cache_miss', 'cache_read', 'cache_store'):
+                # precondition of the cache primitives (they only `assert` it): never called without a cache directory
+                cd = b.me.get('_cache_directory')
+                res.oblige(p.pc_at(e), f'load.cache_touched_only_with_a_cache_directory#{i}', z3.Not(cd.ty.is_none(cd.z)))
         for e in p.events('download'):
             res.oblige(p.pc_at(e), f'load.downloads_own_path#{i}', sym.lift(e.data['path'], STR).z == b.path.z)
 
@@ -132,6 +138,9 @@ def cache_prim_setup(b):
     b.me = me
     b.sym('path', STR)
     b.sym('data', BYTES)
+    # precondition (stated by the code as an `assert`, discharged at every call site: C18.load / delete units): a cache directory is set
+    cd = me.get('_cache_directory')
+    b.assume(z3.Not(cd.ty.is_none(cd.z)))
     P = models.opaque_type('CachePath')
 
     def path_ctor(interp, st, args, kwargs):
